@@ -162,11 +162,33 @@ pub struct RefOpts {
     pub image_range: i32,
     /// clip in reverse order (self test of order independence)
     pub reverse: bool,
+    /// perturb every site (each periodic image independently) by a pseudo random vector with
+    /// components in [-delta, delta] along the active axes: (seed, delta). Used to measure how
+    /// sensitive each quantity of the cell is to rounding of the input ("up to rounding").
+    pub jitter: Option<(u64, f64)>,
 }
 impl Default for RefOpts {
     fn default() -> Self {
-        RefOpts { image_range: 2, reverse: false }
+        RefOpts { image_range: 2, reverse: false, jitter: None }
     }
+}
+
+fn jitter_vec(seed: u64, j: usize, s: [i32; 3], d: usize, delta: f64) -> DVec3 {
+    let mut x = seed ^ (j as u64).wrapping_mul(0x9E37_79B9_7F4A_7C15);
+    for k in 0..3 {
+        x ^= ((s[k] + 7) as u64).wrapping_mul(0xD6E8_FEB8_6659_FD93 << k);
+    }
+    let mut out = DVec3::ZERO;
+    for k in 0..d {
+        x ^= x >> 30;
+        x = x.wrapping_mul(0xBF58_476D_1CE4_E5B9);
+        x ^= x >> 27;
+        x = x.wrapping_mul(0x94D0_49BB_1331_11EB);
+        x ^= x >> 31;
+        let u = (x >> 11) as f64 / (1u64 << 53) as f64;
+        out[k] = (2. * u - 1.) * delta;
+    }
+    out
 }
 
 /// All sites (index, integer shift, position relative to generator i) other than i itself.
@@ -212,9 +234,20 @@ pub fn ref_cell(c: &Case, i: usize, opts: &RefOpts) -> RefCell {
         }
     }
     let mut poly = Poly::cuboid(lo, hi);
-    let diag = (hi - lo).length();
-    let tau = diag * 2f64.powi(-40);
+    // classification tolerance: relative to the extent of the box along the active axes (the
+    // slab of unit thickness along unused axes must not set the scale of a small 2D box)
+    let mut diag2 = 0.;
+    for k in 0..d {
+        diag2 += (hi[k] - lo[k]) * (hi[k] - lo[k]);
+    }
+    let tau = diag2.sqrt() * 2f64.powi(-46);
     let mut sites = sites_rel(c, i, opts.image_range);
+    if let Some((seed, delta)) = opts.jitter {
+        let own = jitter_vec(seed, i, [0; 3], d, delta);
+        for (j, s, rel) in sites.iter_mut() {
+            *rel += jitter_vec(seed, *j, *s, d, delta) - own;
+        }
+    }
     sites.sort_by(|x, y| x.2.length_squared().partial_cmp(&y.2.length_squared()).unwrap());
     if opts.reverse {
         sites.reverse();
